@@ -330,8 +330,14 @@ func drawStanza(t *rapid.T, i int) step {
 	default:
 		nmut = 4
 	}
+	respell := rapid.IntRange(0, 5).Draw(t, "respell") == 0
 	if nmut == 0 {
 		s.input = raw
+		if respell {
+			// the same stanza with its character data in other XML spellings
+			s.input = string(xt.Respell([]byte(raw), uint32(i)))
+			s.muts = append(s.muts, "text-respelled")
+		}
 		return s
 	}
 	var elems []*xt.Node
@@ -352,6 +358,10 @@ func drawStanza(t *rapid.T, i int) step {
 		sb.WriteString(render(n))
 	}
 	s.input = sb.String()
+	if respell {
+		s.input = string(xt.Respell([]byte(s.input), uint32(i)))
+		s.muts = append(s.muts, "text-respelled")
+	}
 	return s
 }
 
